@@ -221,6 +221,10 @@ class SymEval:
         return S.unknown("binop")
 
     def e_BoolOp(self, n):
+        # `x or <non-boolean literal>` selects a value: it is `x if x else <literal>`
+        if isinstance(n.op, ast.Or) and len(n.values) == 2 and isinstance(n.values[1], ast.Constant) and not isinstance(n.values[1].value, bool) \
+                and n.values[1].value is not None and isinstance(n.values[0], (ast.Name, ast.Attribute)):
+            return self.expr(ast.copy_location(ast.IfExp(test=n.values[0], body=n.values[0], orelse=n.values[1]), n))
         vals = [self.expr(v) for v in n.values]
         if isinstance(n.op, ast.And):
             return S.eand(*vals)
@@ -354,6 +358,27 @@ class SymEval:
         q = self.prog.qualify(self.func.module, f, self.func)
         args = [self.expr(a) for a in n.args]
         kwargs = {k.arg: self.expr(k.value) for k in n.keywords if k.arg is not None}
+        # f(..., **d) with d a dict built in this function from keywords (d = dict(dtype=t, **kwargs)): its items are keyword arguments
+        for k in n.keywords:
+            if k.arg is None and isinstance(k.value, ast.Name):
+                dv = self.env.get(k.value.id)
+                if isinstance(dv, S.E) and dv.op == "cond" and len(dv.args) == 3 and not getattr(self, "_in_kw_split", False):
+                    # the dict is built on one branch only: the call is evaluated per branch
+                    saved_ = self.env[k.value.id]
+                    self._in_kw_split = True
+                    try:
+                        self.env[k.value.id] = dv.args[1]
+                        v1_ = self.e_Call(n)
+                        self.env[k.value.id] = dv.args[2]
+                        v2_ = self.e_Call(n)
+                    finally:
+                        self.env[k.value.id] = saved_
+                        self._in_kw_split = False
+                    return S.cond(dv.args[0], v1_, v2_)
+                if isinstance(dv, S.E) and dv.op == "call" and dv.args[0] == "dict":
+                    for a_ in dv.args[1:]:
+                        if isinstance(a_, S.E) and a_.op == "call" and str(a_.args[0]).startswith("kw:") and a_.args[0][3:] not in kwargs:
+                            kwargs[a_.args[0][3:]] = a_.args[1]
         if isinstance(f, ast.Name) and f.id not in self.env:
             name = f.id
             if q is None:
@@ -385,6 +410,8 @@ class SymEval:
                 if name in ("range", "tuple", "list", "set", "zip", "enumerate", "sum",
                             "isinstance", "dict", "sorted", "reversed", "print", "super",
                             "hasattr", "getattr", "slice", "str", "type", "iter", "next"):
+                    if name == "dict" and kwargs:
+                        return S.call(name, *(list(args) + [S.call("kw:" + k_, v_) for k_, v_ in sorted(kwargs.items())]))
                     return S.call(name, *args)
         if q is not None:
             if q in ("numpy.maximum", "numpy.minimum") and len(args) == 2 and not kwargs:
